@@ -62,7 +62,7 @@ def make(rng, variant):
     if variant == "NaiveElimination":
         case["L"] = int(rng.integers(1, 8))
     if variant == "Auer-emp":
-        case["hetero"] = (np.sqrt(case["noise_var"]) * 10 ** rng.uniform(-1, 1, size=case["K"])).tolist()
+        case["hetero"] = (np.sqrt(case["noise_var"]) * 10 ** rng.uniform(-1, 1, size=(case["K"], case["m"]))).tolist()  # per (design, objective)
     case["max_rounds"] = 120
     return case, order
 
